@@ -27,6 +27,8 @@ def run_stream(st, tier, seed, judge):
     """build the stream's driver(s) from the current tree, run all shards driver|judge in parallel"""
     if st.get('kind') == 'pair':
         return run_pair_stream(st, tier, seed, judge)
+    if st.get('kind') == 'selfcheck':
+        return run_selfcheck_stream(st, tier, seed, judge)
     out = {'mism': [], 'samples': [], 'crashes': [], 'total': {}, 'evidence': {}}
     t0 = time.time()
     exe, err = build(st['driver'])
@@ -155,6 +157,64 @@ def run_pair_stream(st, tier, seed, judge):
     return out
 
 
+def run_selfcheck_stream(st, tier, seed, judge):
+    """the driver compares instantiations itself (C12): a result field starting with '!btdiff' is a disagreement"""
+    import subprocess, tempfile
+    out = {'mism': [], 'samples': [], 'crashes': [], 'total': {}, 'evidence': {}}
+    t0 = time.time()
+    exe, err = build(st['driver'])
+    if exe is None:
+        out['crashes'].append('driver %s does not compile against the current tree:\n%s' % (st['driver'], err[-3000:]))
+        out['evidence'] = {'stream': st['name'], 'error': 'compile failed'}
+        return out
+    jobs = []
+    for run in st['runs'][tier]:
+        for i in range(run.get('shards', 1)):
+            jobs.append([exe] + run['args'] + ['--seed', str(seed), '--shard', str(i), str(run.get('shards', 1))])
+    tot = dict(n=0, nontrivial=0, distinct_nontrivial=0, mismatches=0, bad=0)
+    keys = set()
+
+    def one(cmd):
+        r = {'n': 0, 'mism': [], 'crash': None, 'keys': set(), 'seen': set(), 'samples': []}
+        try:
+            with tempfile.TemporaryFile(dir=uvlib.BUILD) as e1:
+                p = subprocess.run(cmd, stdout=subprocess.PIPE, stderr=e1, timeout=st.get('timeout', 1500))
+        except subprocess.TimeoutExpired:
+            r['crash'] = 'timeout: ' + ' '.join(cmd); return r
+        if p.returncode != 0:
+            r['crash'] = 'driver exit %d: %s' % (p.returncode, ' '.join(cmd))
+        for line in p.stdout.decode(errors='replace').splitlines():
+            if not line[:1].isdigit():
+                continue
+            f = line.split(' ')
+            if len(f) < 5:
+                continue
+            r['n'] += 1
+            r['keys'].add((f[0], f[1], f[2]))
+            r['seen'].add(hash(line))
+            if f[4].startswith('!btdiff') or f[4].startswith('!SIG'):
+                c = uvlib.parse_case(line); c['model'] = 'all block types must agree'
+                r['mism'].append(c)
+            elif r['n'] % 5000 == 1:
+                r['samples'].append(line)
+        return r
+
+    with cf.ThreadPoolExecutor(max_workers=NCPU) as ex:
+        for r in ex.map(one, jobs):
+            if r['crash']:
+                out['crashes'].append(r['crash'])
+            tot['n'] += r['n']; tot['nontrivial'] += len(r['seen']); tot['distinct_nontrivial'] += len(r['seen'])
+            tot['mismatches'] += len(r['mism']); out['mism'] += r['mism'][:500]; keys |= r['keys']; out['samples'] += r['samples'][:1]
+    if tot['n'] == 0 and not out['crashes']:
+        out['crashes'].append('stream %s produced no cases' % st['name'])
+    out['total'] = tot
+    out['evidence'] = {'stream': st['name'], 'kind': 'selfcheck', 'cases': tot['n'], 'mismatches': tot['mismatches'],
+                       'configurations': sorted('%s:%s' % (uvlib.FAMS.get(int(k[0]), k[0]), k[1]) for k in {(a, b) for a, b, _ in keys}),
+                       'ops': sorted({uvlib.OPS.get(int(k[2]), k[2]) for k in keys}), 'exhaustive': False, 'what': st.get('what', ''),
+                       'wall_s': round(time.time() - t0, 1)}
+    return out
+
+
 def replay_case(st, case_line, judge):
     import subprocess
     exe, err = build(st['driver'])
@@ -167,6 +227,16 @@ def replay_case(st, case_line, judge):
 
 
 DRIVERS = {
+    'blocks_p0': {'src': 'drv_blocks.cpp', 'flags': ['-DPART=0']},
+    'blocks_p1': {'src': 'drv_blocks.cpp', 'flags': ['-DPART=1']},
+    'blocks_p2': {'src': 'drv_blocks.cpp', 'flags': ['-DPART=2']},
+    'blocks_p3': {'src': 'drv_blocks.cpp', 'flags': ['-DPART=3']},
+    'posit_small_thr': {'src': 'drv_posit.cpp', 'flags': ['-DNO_LARGE', '-DTHROWING=1']},
+    'posit_large_thr': {'src': 'drv_posit.cpp', 'flags': ['-DNO_SMALL', '-DTHROWING=1']},
+    'fixpnt_small_thr': {'src': 'drv_fixpnt.cpp', 'flags': ['-DNO_LARGE', '-DTHROWING=1']},
+    'integer_small_thr': {'src': 'drv_integer.cpp', 'flags': ['-DNO_LARGE', '-DTHROWING=1']},
+    'integer_large_thr': {'src': 'drv_integer.cpp', 'flags': ['-DNO_SMALL', '-DTHROWING=1']},
+    'lns_small_thr': {'src': 'drv_lns.cpp', 'flags': ['-DNO_LARGE', '-DTHROWING=1']},
     'posit_fastset_generic': {'src': 'drv_posit.cpp', 'flags': ['-DFASTSET']},
     'posit_fastset_fast': {'src': 'drv_posit.cpp', 'flags': ['-DFASTSET', '-DFAST=1']},
     'posit_small': {'src': 'drv_posit.cpp', 'flags': ['-DNO_LARGE']},
@@ -183,6 +253,7 @@ DRIVERS = {
 }
 for k in (0, 1, 2, 3, 4, 10, 11, 12, 13):
     DRIVERS['cfloat_s%d' % k] = {'src': 'drv_cfloat.cpp', 'flags': ['-DSET=%d' % k]}
+    DRIVERS['cfloat_s%d_thr' % k] = {'src': 'drv_cfloat.cpp', 'flags': ['-DSET=%d' % k, '-DTHROWING=1']}
 CF_SMALL = ['cfloat_s0', 'cfloat_s1', 'cfloat_s2', 'cfloat_s3']
 CF_LARGE = ['cfloat_s10', 'cfloat_s11', 'cfloat_s12', 'cfloat_s13']
 
@@ -211,7 +282,128 @@ def cmp_same(fa, fb):
     return None if fa[4] == fb[4] else 'builds differ'
 
 
+def _expected_throw(fam, cfg, op, args):
+    """C19: the operands for which the throwing build must throw (True), must not (False), or is not judged (None);
+    with the keywords the exception type name must contain"""
+    a = [int(x, 16) for x in args.split(',') if x and x != '-']
+    c = [int(x) for x in cfg.split(',')]
+    opn = uvlib.OPS.get(op)
+    if fam == 1:
+        n = c[0]; nar = 1 << (n - 1)
+        if opn in ('add', 'sub', 'mul'):
+            return (True, ('operand_is_nar',)) if nar in a[:2] else (False, ())
+        if opn == 'div':
+            if a[1] == 0:
+                return True, ('divide_by_zero',)
+            if a[1] == nar:
+                return True, ('divide_by_nar',)
+            if a[0] == nar:
+                return True, ('numerator_is_nar', 'operand_is_nar')
+            return False, ()
+        return False, ()
+    if fam == 2:
+        n, es, sub, sup, sat = c[:5]; fb = n - 1 - es
+        def cls(x):
+            m = x & ((1 << (n - 1)) - 1); s = x >> (n - 1); e = m >> fb
+            if m == (1 << (n - 1)) - 2 and not (sup and sat):
+                return 'inf'
+            if m == (1 << (n - 1)) - 1 or (e == (1 << es) - 1 and not sup and m != (1 << (n - 1)) - 2):
+                return 'snan' if s else 'qnan'
+            if m == 0 or (e == 0 and not sub):
+                return 'zero'
+            return 'fin'
+        ka, kb = cls(a[0]), (cls(a[1]) if len(a) > 1 else 'fin')
+        if opn in ('add', 'sub', 'mul'):
+            return (True, ('operand_is_nan',)) if 'snan' in (ka, kb) else (False, ())
+        if opn == 'div':
+            if kb == 'zero':
+                return True, ('divide_by_zero',)
+            if kb in ('snan', 'qnan'):
+                return True, ('divide_by_nan', 'operand_is_nan')
+            if ka == 'snan':
+                return True, ('operand_is_nan',)
+            if ka == 'qnan':
+                return None, ()
+            return False, ()
+        return False, ()
+    if fam == 3:
+        return ((True, ('divide_by_zero',)) if opn == 'div' and a[1] == 0 else (False, ()))
+    if fam == 4:
+        return ((True, ('divide_by_zero',)) if opn in ('div', 'rem') and a[1] == 0 else (False, ()))
+    if fam == 5:
+        n = c[0]
+        if opn == 'div' and a[1] == 1 << (n - 2):
+            # a NaN dividend propagates before the divisor is looked at: not judged
+            return (None, ()) if a[0] == (1 << (n - 1)) + (1 << (n - 2)) else (True, ('divide_by_zero',))
+        return False, ()
+    return None, ()
+
+
+def cmp_throw(fa, fb):
+    """fa: quiet build, fb: throwing build"""
+    fam, cfg, op, args = int(fa[0]), fa[1], int(fa[2]), fa[3]
+    q, t = fa[4], fb[4]
+    exp, kw = _expected_throw(fam, cfg, op, args)
+    if t.startswith('!SIG') or q.startswith('!SIG'):
+        return 'signal/crash: quiet=%s throwing=%s' % (q, t)
+    if q.startswith('!'):
+        return 'the quiet build threw: ' + q
+    if t.startswith('!'):
+        if exp is False:
+            return 'exception %s thrown for operands that signal no error condition (quiet result %s)' % (t, q)
+        if exp is True and not any(k in t for k in kw):
+            return 'exception %s is not the documented type (expected one of %s)' % (t, ','.join(kw))
+        return None
+    if exp is True:
+        return 'no exception thrown although the operands signal an error condition (quiet and throwing result %s)' % t
+    return None if q == t else 'result differs between quiet (%s) and throwing (%s) build' % (q, t)
+
+
+def pair(name, d1, d2, args_q, args_t, compare, shards=16, what='', exhaustive=False, judge_ref=False):
+    return {'name': name, 'kind': 'pair', 'driver': d1, 'driver2': d2, 'compare': compare, 'judge_ref': judge_ref, 'what': what,
+            'exhaustive': {'quick': exhaustive, 'thorough': exhaustive},
+            'runs': {'quick': [dict(args=args_q, shards=shards)], 'thorough': [dict(args=args_t, shards=shards)]}}
+
+
+def blk(name, part, group, q, t, mode='rnd'):
+    a = lambda c: ['--mode', mode, '--group', group] + (['--count', str(c)] if mode == 'rnd' else [])
+    return {'name': name, 'kind': 'selfcheck', 'driver': 'blocks_p%d' % part, 'what': 'every operation executed for each BlockType; raw results must be identical',
+            'runs': {'quick': [dict(args=a(q), shards=8)], 'thorough': [dict(args=a(t), shards=16)]}}
+
+
 PLANS = {
+    'C12': {
+        'level': 'translation_validation', 'coq': 'Properties_C12',
+        'rule': 'for integer, fixpnt (Modulo and Saturate), cfloat (two flag combinations), lns and areal at sizes around every block boundary '
+                '(7 8 9 15 16 17 24 31 32 33 48 63 64 65 96 bits) each operation (+ - * / % neg shifts, bitwise, comparisons, ++/--, native '
+                'conversions) is executed once per BlockType (uint8_t, uint16_t, uint32_t, and uint64_t where one block holds the number) on the '
+                'same operands and the raw result bits are compared; all pairs for the 7..9-bit sizes, structured sampling above. '
+                'non-trivial = distinct case lines',
+        'assumptions': ['einteger block types are covered by C14'],
+        'streams': [blk('blocks_integer_arith', 0, 'arith', 1500, 30000), blk('blocks_integer_logic', 0, 'logic', 400, 8000), blk('blocks_integer_cmp', 0, 'cmp', 400, 8000),
+                    blk('blocks_integer_conv', 0, 'conv', 200, 3000),
+                    blk('blocks_fixpnt_arith', 1, 'arith', 1500, 30000), blk('blocks_fixpnt_cmp', 1, 'cmp', 400, 8000), blk('blocks_fixpnt_conv', 1, 'conv', 200, 3000),
+                    blk('blocks_cfloat_arith', 2, 'arith', 1500, 30000), blk('blocks_cfloat_cmp', 2, 'cmp', 400, 8000), blk('blocks_cfloat_conv', 2, 'conv', 200, 3000),
+                    blk('blocks_lns_areal_arith', 3, 'arith', 1000, 20000), blk('blocks_lns_areal_conv', 3, 'conv', 200, 3000),
+                    blk('blocks_small_exh_int', 0, 'arith', 0, 0, mode='exh'), blk('blocks_small_exh_fx', 1, 'arith', 0, 0, mode='exh')],
+    },
+    'C19': {
+        'level': 'translation_validation', 'coq': 'Properties_C19',
+        'rule': 'the same driver source compiled twice per number system (*_THROW_ARITHMETIC_EXCEPTION off / on), run on identical operands and '
+                'compared line by line: a throw must occur exactly for the operands the property names (posit: NaR operand, division by zero/NaR; '
+                'cfloat: signalling NaN operand, division by zero/NaN; fixpnt, integer, lns: division by zero) with the documented exception type, '
+                'and every result that is returned must be bit-identical to the quiet build. exhaustive on all operand pairs of the small '
+                'configurations, sampled above. non-trivial = lines where the builds differ (exceptions)',
+        'assumptions': ['cfloat division with a quiet-NaN dividend is not judged (the property lists signalling NaN operands only; the code throws)'],
+        'streams': [pair('posit_throw_exh', 'posit_small', 'posit_small_thr', ['--mode', 'exh', '--group', 'arith'], ['--mode', 'exh', '--group', 'arith'], cmp_throw, exhaustive=True),
+                    pair('posit_throw_rnd', 'posit_large', 'posit_large_thr', ['--mode', 'rnd', '--group', 'arith', '--count', '1500'], ['--mode', 'rnd', '--group', 'arith', '--count', '30000'], cmp_throw, shards=23),
+                    pair('fixpnt_throw_exh', 'fixpnt_small', 'fixpnt_small_thr', ['--mode', 'exh', '--group', 'arith'], ['--mode', 'exh', '--group', 'arith'], cmp_throw, exhaustive=True),
+                    pair('integer_throw_exh', 'integer_small', 'integer_small_thr', ['--mode', 'exh', '--group', 'arith'], ['--mode', 'exh', '--group', 'arith'], cmp_throw, exhaustive=True),
+                    pair('integer_throw_rnd', 'integer_large', 'integer_large_thr', ['--mode', 'rnd', '--group', 'arith', '--count', '600'], ['--mode', 'rnd', '--group', 'arith', '--count', '10000'], cmp_throw),
+                    pair('lns_throw_exh', 'lns_small', 'lns_small_thr', ['--mode', 'exh', '--group', 'muldiv'], ['--mode', 'exh', '--group', 'muldiv'], cmp_throw, exhaustive=True)] +
+                   [pair('cfloat_throw_exh%d' % k, 'cfloat_s%d' % k, 'cfloat_s%d_thr' % k, ['--mode', 'exh', '--group', 'arith'], ['--mode', 'exh', '--group', 'arith'], cmp_throw, exhaustive=True) for k in range(4)] +
+                   [pair('cfloat_throw_rnd%d' % k, 'cfloat_s%d' % k, 'cfloat_s%d_thr' % k, ['--mode', 'rnd', '--group', 'arith', '--count', '1500'], ['--mode', 'rnd', '--group', 'arith', '--count', '30000'], cmp_throw, shards=4) for k in (10, 11)],
+    },
     'C17': {
         'level': 'proof', 'coq': 'Properties_C17', 'pregen': ['gen_tables.py'],
         'rule': 'every encoding of every small posit / cfloat / fixpnt / integer configuration (all <= 10 bits, posit also 12..16 bits in the thorough tier) '
